@@ -406,7 +406,8 @@ func (olds Segment) Rename(news Segment) error {
 
 func (olds Segment) Override(news Segment) error {
 	// remove index segment so we don't have invalid index
-	if err := os.Remove(news.Index); err != nil {
+	// (it might be missing already, in which case it was going to be rebuilt)
+	if err := os.Remove(news.Index); err != nil && !errors.Is(err, os.ErrNotExist) {
 		return fmt.Errorf("override index delete: %w", err)
 	}
 	verifhook.FS("remove", "Override/drop-index", news.Index, "")
@@ -428,7 +429,8 @@ func (olds Segment) Override(news Segment) error {
 }
 
 func (s Segment) Remove() error {
-	if err := os.Remove(s.Index); err != nil {
+	// the index might be missing already, in which case it was going to be rebuilt
+	if err := os.Remove(s.Index); err != nil && !errors.Is(err, os.ErrNotExist) {
 		return fmt.Errorf("remove index delete: %w", err)
 	}
 	verifhook.FS("remove", "Remove/index", s.Index, "")
